@@ -170,6 +170,14 @@ pub fn frame_set(name: &str) -> Vec<FrameSpec> {
             v.push(plain(&format!("probe_{name}"), 0x00, false, vec![head, Blk::Verbatim { ty: 2, size_field: body.len() as u32, body, regen: None }, Blk::Raw(vec![])]));
         }
     };
+    // a plain frame that builds its own Huffman table (other lengths than the dictionaries' table): what it leaves behind
+    // must not survive into a dictionary frame that decodes its first literals with the dictionary's table
+    let dirty_huf = |v: &mut Vec<FrameSpec>| {
+        v.push(plain("dirty_huf", 0x00, false, vec![
+            Blk::Raw(fresh(20, 90)),
+            Blk::Comp { lits: Lits::Huf(b"aaaaaaaabbbbccdaaaabbbccccddddeeeeffff".to_vec(), false, Some(vec![0; 97].into_iter().chain([1u8, 2, 3, 4, 4, 1]).collect()), None), seqs: vec![(5, 9, 4)], modes: (SeqMode::Predef, SeqMode::Predef, SeqMode::Predef) },
+        ]));
+    };
     // C05: blocks at and beyond the 128 KiB limit; window 128 KiB (descriptor 0x38)
     let hostile = |v: &mut Vec<FrameSpec>| {
         let big = |name: &str, ml: u32, nseq: usize| {
@@ -221,6 +229,7 @@ pub fn frame_set(name: &str) -> Vec<FrameSpec> {
             probes(&mut v);
             dirty(&mut v);
             twins(&mut v);
+            dirty_huf(&mut v);
         }
         "hostile" => {
             hostile(&mut v);
